@@ -33,6 +33,7 @@ type mutant struct {
 	kind  string // token-level: del ins sub ; semantic: undef-prod undef-regdef dup-def empty-alt
 	mustReject bool
 	why   string
+	text  string
 }
 
 func typesOf(toks []gram.FTok) []string {
@@ -217,34 +218,58 @@ func runC14(c *Ctx) error {
 		}
 		for k := 0; k < 6 && len(units) < n; k++ {
 			var m *mutant
-			if c.Rng.Intn(4) == 0 {
+			slash := false
+			if c.Rng.Intn(10) == 0 {
+				// a stray "/" (or "*") somewhere in a file that has comments further on
+				slash = true
+				toks := cloneToks(base)
+				p := c.Rng.Intn(len(toks) + 1)
+				st := gram.FTok{Text: []string{"/", "/", "*"}[c.Rng.Intn(3)], Type: "ILLEGAL"}
+				if c.Rng.Intn(3) == 0 && p < len(toks) {
+					toks[p] = st
+				} else {
+					toks = append(toks[:p:p], append([]gram.FTok{st}, toks[p:]...)...)
+				}
+				m = &mutant{toks: toks, kind: "stray-slash ", mustReject: true, why: "token sequence is not a sentence of spec/gocc2.ebnf"}
+			} else if c.Rng.Intn(4) == 0 {
 				m = semanticMutant(c.Rng, g)
 			} else {
 				m = tokenMutant(c.Rng, base)
 				if m != nil && !spec.Accepts(typesOf(m.toks)) {
 					m.mustReject = true
 					m.why = "token sequence is not a sentence of spec/gocc2.ebnf"
-					// an inserted comment opener that meets a "*/" further on (inside a literal, or
-					// an inserted stray closer) is a well-formed comment: what is left is not judged
-					text := gram.Join(m.toks, nil)
-					for k, t := range m.toks {
-						if t.Type == "OPEN-COMMENT" {
-							if i := strings.Index(text, t.Text); i >= 0 && strings.Contains(text[i+2:], "*/") {
-								m.mustReject = false
-							}
-							_ = k
-						}
-					}
 				}
 			}
 			if m != nil {
+				// a third of the mutants is laid out with comments and odd white space between the
+				// tokens: what a stray character does may depend on a comment further on
+				var lo *gram.RenderOpts
+				if slash || c.Rng.Intn(3) == 0 {
+					lo = &gram.RenderOpts{R: rand.New(rand.NewSource(c.Rng.Int63())), RandLayout: true}
+				}
+				for k := range m.toks {
+					if t := m.toks[k]; t.Type == "ILLEGAL" || t.Type == "OPEN-COMMENT" {
+						m.toks[k].Text = " " + strings.TrimSpace(t.Text) + " " // never glued to a comment marker of the layout
+					}
+				}
+				m.text = gram.Join(m.toks, lo)
+				// an inserted comment opener that meets a "*/" further on (in a literal, a comment
+				// of the layout, an inserted stray closer) is a well-formed comment: what is left of
+				// the file is then not judged
+				for _, t := range m.toks {
+					if t.Type == "OPEN-COMMENT" {
+						if i := strings.Index(m.text, t.Text); i >= 0 && strings.Contains(m.text[i+3:], "*/") {
+							m.mustReject = false
+						}
+					}
+				}
 				units = append(units, unit{g, m})
 			}
 		}
 	}
 	run.Parallel(len(units), func(i int) {
 		u := units[i]
-		judgeMutant(c, gram.Join(u.m.toks, nil), u.m.mustReject, u.m.kind, u.m.why, fmt.Sprintf("g%05d", i), i%701 == 0)
+		judgeMutant(c, u.m.text, u.m.mustReject, u.m.kind, u.m.why, fmt.Sprintf("g%05d", i), i%701 == 0)
 	})
 	return nil
 }
